@@ -33,8 +33,8 @@ from machines.build import BUILD_STUBS
 
 NAMES = {'n0': ['x', 'y', 'z'], 'n1': ['y', 'extra'], 'N2': ['x', 'k'],
          'N3': ['x', 'y'], 'n4': [], 'n5': ['x'], 'n6': ['x', 'y', 'k'],
-         'n0b': ['x', 'y', 'w']}
-JSON_OK = ('n0', 'n1', 'N2', 'N3', 'n6', 'n0b')   # stubs that have a pyref
+         'n0b': ['x', 'y', 'w'], 'n7': ['x', 'extra']}
+JSON_OK = ('n0', 'n1', 'N2', 'N3', 'n6', 'n0b', 'n7')   # stubs that have a pyref
 TAGS = ['T0', 'T1', 'T2', 'U0']
 BTYPES = {'Config': fdl.Config, 'Partial': fdl.Partial,
           'ArgFactory': fdl.ArgFactory}
@@ -144,6 +144,8 @@ def gen_case(world, tier, prop):
       return {'novalue': 1}   # the NO_VALUE sentinel stored explicitly
     if r < 0.07:
       return {'list': [7]}    # equal to other such lists, never the same object
+    if r < 0.085:
+      return {'halfcopy': rng.randrange(2)}   # one of two objects, so often twice
     if r < 0.45 or depth >= 2:
       return token()
     if r < 0.58 and allow_tv:
@@ -225,6 +227,10 @@ def gen_case(world, tier, prop):
       op['tag'] = rng.choice(TAGS)
     if kind == 'set_tags':
       op['tags'] = rng.sample(TAGS, rng.randint(0, 2))
+      op['coll'] = rng.choice(['list', 'set', 'set', 'tuple', 'frozenset'])
+      if op['coll'] == 'set':
+        # few combinations, so that the caller's set object is passed again
+        op['tags'] = rng.choice([['T0'], ['T1', 'U0']])
     return op
 
   def copy_op():
@@ -245,7 +251,7 @@ def gen_case(world, tier, prop):
         # the callable is swapped and the NEW callable's parameter is tagged
         n = 0 if rng.random() < 0.6 else rng.randint(0, 4)
         op['edits'].append({'op': 'update_callable', 'c': 0, 'n': n,
-                            'fn': rng.choice(['n0b', 'n0']), 'drop': True})
+                            'fn': rng.choice(['n0b', 'n0', 'n7']), 'drop': True})
         op['edits'].append({'op': 'add_tag', 'c': 0, 'n': n,
                             'arg': rng.choice(['w', 'z', 'x']), 'tag': rng.choice(TAGS)})
       for _ in range(rng.randint(1, 3)):
@@ -257,8 +263,24 @@ def gen_case(world, tier, prop):
 
   ops = [new_op()]
   n = rng.randint(3, 16 if tier == 'thorough' else 11)
+  pending = []
   while len(ops) < n:
     r = rng.random()
+    if pending and rng.random() < 0.5:
+      ops.append(pending.pop(0))
+      continue
+    last = ops[-1]
+    if last.get('coll') == 'set' and not pending and rng.random() < 0.5:
+      # the caller uses its set object again, elsewhere, and then one of the two
+      # places is edited
+      again = tag_op()
+      again.update(op='set_tags', tags=list(last['tags']), coll='set')
+      again.pop('tag', None)
+      edit = dict(rng.choice([last, again]), op=rng.choice(['add_tag', 'remove_tag', 'clear_tags']))
+      edit.pop('tags', None); edit.pop('coll', None)
+      if edit['op'] != 'clear_tags':
+        edit['tag'] = rng.choice(TAGS)
+      pending += [again, edit]
     if rng.random() < 0.06:
       ops.append({'op': rng.choice(['suspend_enter', 'suspend_exit'])})
       continue
@@ -286,6 +308,13 @@ def gen_case(world, tier, prop):
         ops.append({'op': rng.choice(['set_tagged', 'select_replace']),
                     'c': rng.randrange(len(fn_of)), 'tag': rng.choice(TAGS),
                     'v': token() if rng.random() < 0.8 else {'list': [7]}})
+      elif r < 0.715:
+        # the callable is swapped in place (for one that lacks a parameter, has
+        # another one, or takes everything through **kwargs)
+        c_, n_ = target()
+        ops.append({'op': 'update_callable', 'c': c_, 'n': n_,
+                    'fn': rng.choice(['n0', 'n0b', 'n7', 'n7']),
+                    'drop': rng.random() < 0.6})
       elif r < 0.73:
         # a selection object is kept and used later, after other operations
         ops.append({'op': 'select_make', 'c': rng.randrange(len(fn_of)),
@@ -320,6 +349,8 @@ class Side:
     self.pairs = []   # (orig_root, copy_root, deep?) for identity checks
     self.sels = []    # kept selection objects (impl) / (root, tag) (model)
     self.suspend = [] # entered suspend_tracking() blocks (impl only)
+    self.leafpool = {}   # opaque leaf objects that may be referenced repeatedly
+    self.owned = {}      # tag collections owned by the caller and re-used
 
   def value(self, d):
     """Maker with {'ref': [c, n]} resolved against the live heap."""
@@ -341,6 +372,10 @@ class Side:
         return {k: self.value(v) for k, v in d['dict']}
       if 'novalue' in d:
         return M.NO_VALUE
+      if 'halfcopy' in d:
+        if d['halfcopy'] not in self.leafpool:
+          self.leafpool[d['halfcopy']] = stubmod.HalfCopyable(d['halfcopy'])
+        return self.leafpool[d['halfcopy']]
       if 'node' in d:
         nd = d['node']
         args = [self.value(a) for a in nd['args']]
@@ -426,6 +461,8 @@ def model_apply(S_: Side, op):
     if m.pos or m.tail:
       raise M.Invalid('update_callable with positional arguments is unsupported')
     new_sv = S_.mk.sv(op['fn'])
+    if any(ts and isinstance(key, int) for key, ts in m.tags.items()):
+      raise Skip()   # tags addressed by position, under another signature
     if new_sv.vk is None and any(
         ts and isinstance(key, str) and key not in new_sv.pk and key not in new_sv.ko
         for key, ts in m.tags.items()):
@@ -613,7 +650,18 @@ def impl_apply(S_: Side, op):
     tagging.remove_tag(S_.target(op), op['arg'], stubmod.TAGS[op['tag']])
     return None
   if k == 'set_tags':
-    tagging.set_tags(S_.target(op), op['arg'], [stubmod.TAGS[t] for t in op['tags']])
+    tags = [stubmod.TAGS[t] for t in op['tags']]
+    coll = op.get('coll', 'list')
+    if coll == 'set':
+      # ONE set object per tag combination, owned by the caller and passed again
+      # on every such call
+      key = tuple(sorted(op['tags']))
+      if key not in S_.owned:
+        S_.owned[key] = set(tags)
+      tags = S_.owned[key]
+    elif coll in ('tuple', 'frozenset'):
+      tags = {'tuple': tuple, 'frozenset': frozenset}[coll](tags)
+    tagging.set_tags(S_.target(op), op['arg'], tags)
     return None
   if k == 'clear_tags':
     tagging.clear_tags(S_.target(op), op['arg'])
@@ -663,6 +711,26 @@ def impl_apply(S_: Side, op):
   S_.roots.append(new)
   S_.pairs.append((src, new, k in ('deepcopy', 'pickle', 'json', 'deepcopy_with', 'diff_tags')))
   return None
+
+
+def holds_uncopyable(root):
+  seen = set()
+
+  def go(v):
+    if id(v) in seen:
+      return False
+    seen.add(id(v))
+    if isinstance(v, stubmod.HalfCopyable):
+      return True
+    if isinstance(v, fdl.Buildable):
+      hist = [e.new_value for es in v.__argument_history__.values() for e in es]
+      return any(go(c) for c in list(v.__arguments__.values()) + hist)
+    if isinstance(v, (list, tuple)):
+      return any(go(c) for c in v)
+    if isinstance(v, dict):
+      return any(go(c) for c in v.values())
+    return False
+  return go(root)
 
 
 def is_copy_root(I, op):
@@ -848,6 +916,15 @@ def run(case):
                                    f'{desc} raised {type(raised).__name__} but '
                                    'changed: ' + '; '.join(C.diff(before_i, after_i)), op))
         return res
+      continue
+    if (raised is not None and k in ('deepcopy', 'pickle', 'json', 'deepcopy_with',
+                                     'diff_tags')
+        and holds_uncopyable(I.root(op))):
+      # refusing to duplicate a value that cannot be duplicated is loud and
+      # therefore fine; what is checked is a copy that IS returned
+      bump(probes, 'uncopyable_refused')
+      del Mo.roots[n_roots:]
+      del Mo.pairs[len(I.pairs):]
       continue
     if raised is not None:
       if k in EDIT_OPS:
